@@ -103,6 +103,19 @@ def prove_file(mod, ctx, pf, build_deps=True):
         if not errs:
             res["errors"].append("coq build failed: " + out[-1500:])
     r = coqc_file(pf, timeout=getattr(mod, "COQ_TIMEOUT", 1500))
+    # a .vo compiled against an older Gen (another process regenerated it in between) is stale, not wrong: remove it,
+    # let make rebuild it and its dependents, retry (bounded)
+    for _ in range(4):
+        m_st = re.search(r"Compiled library \S+ \(in file ([^)]+\.vo)\) makes inconsistent assumptions", r.stderr + r.stdout)
+        if r.returncode == 0 or not m_st:
+            break
+        try:
+            os.remove(m_st.group(1))
+        except OSError:
+            pass
+        alldeps = list(getattr(mod, "COQ_DEPS", []))
+        ok2, out2 = common.coq_make(alldeps, timeout=getattr(mod, "COQ_TIMEOUT", 1500)) if alldeps else (True, "")
+        r = coqc_file(pf, timeout=getattr(mod, "COQ_TIMEOUT", 1500))
     if r.returncode != 0:
         m = re.search(r'File "([^"]+)", line (\d+)[^\n]*\n(Error:.*)', r.stderr + r.stdout, flags=re.S)
         msg = ("%s:%s %s" % (m.group(1), m.group(2), " ".join(m.group(3).split())[:600])) if m else (r.stderr[-800:] or "coqc failed")
